@@ -73,6 +73,8 @@ def product(which):
     terms = set(b.terminals) | {lr1.END_OF_INPUT}
     for st, row in a.action.items():
         terms |= set(row)
+    for st, row in b.action.items():
+        terms |= set(row)          # explicit Error entries for tokenizer-only symbols (BadWord, ...) live only in rows
     terms = sorted(terms, key=str)
     nonterms = sorted(set(b.nonterminals), key=str)
     seen = {(0, 0)}
